@@ -108,6 +108,82 @@ def retry_policy_part():
     return "\n".join(out)
 
 
+@part
+def sqlite_migrations_part():
+    """C28: _store/sqlite/migrations/*.sql (sorted by file name, version from the first line) and
+    migrate.py's _SCHEMA_MIGRATIONS_DDL as abstract schema operations (parser: translate_sql.py).
+    An unrecognised statement does not abort the whole translation: the data definitions are
+    replaced by an error marker, so exactly the developments that use them (C28) stop compiling."""
+    import translate_sql as TS
+    base = "packages/llama-agents-server/src/llama_agents/server/_store"
+    out = ["(* from %s/sqlite/migrations/*.sql and sqlite/migrate.py *)" % base, TS.SQL_TYPES]
+    try:
+        d = os.path.join(REPO, base, "sqlite/migrations")
+        if not os.path.isdir(d):
+            raise TS.SqlError("missing directory " + d)
+        names = sorted(n for n in os.listdir(d) if n.endswith(".sql"))
+        if not names:
+            raise TS.SqlError("no migration scripts found")
+        rows = []
+        for n in names:
+            text = open(os.path.join(d, n)).read()
+            try:
+                rows.append("  (%s, %s,\n    %s)" % (zlit(TS.parse_version(text)), TS.cstr(n),
+                                                   TS.coq_script(TS.parse_script(text))))
+            except TS.SqlError as e:
+                raise TS.SqlError("%s: %s" % (n, e))
+        ddl = module_assign(module(base + "/sqlite/migrate.py"), "_SCHEMA_MIGRATIONS_DDL")
+        if not (isinstance(ddl, ast.Constant) and isinstance(ddl.value, str)):
+            raise TS.SqlError("_SCHEMA_MIGRATIONS_DDL is not a string constant")
+        ddl_ops = TS.parse_script(ddl.value.replace("schema_migrations", "schema_migrations_"))
+        if len(ddl_ops) != 1 or ddl_ops[0][0] != "create_table" or ddl_ops[0][2] != "schema_migrations_":
+            raise TS.SqlError("_SCHEMA_MIGRATIONS_DDL: expected one CREATE TABLE schema_migrations")
+        out.append("Definition sqlite_migrations : list (Z * string * list Sql.stmt) := [\n%s\n]."
+                   % ";\n".join(rows))
+        out.append("Definition sqlite_schema_migrations_cols : list Sql.col := [%s]."
+                   % "; ".join(TS.coq_col(c) for c in ddl_ops[0][3]))
+    except (TS.SqlError, TranslateError) as e:
+        out.append("Definition sqlite_migrations_TRANSLATE_ERROR : string := %s."
+                   % coq_string(re.sub(r"[^ -~]", "?", str(e))[:300]))
+    return "\n".join(out)
+
+
+@part
+def llamactl_part():
+    """C37: see translate_llamactl.py (kept in its own module; a failure only withholds the
+    llamactl_* definitions, so only the C37 development stops compiling)."""
+    import translate_llamactl as TL
+    try:
+        return TL.extract(src)
+    except (TL.Err, TranslateError, SyntaxError) as e:
+        return "Definition llamactl_TRANSLATE_ERROR : string := %s." % coq_string(
+            re.sub(r"[^ -~]", "?", str(e))[:300])
+
+
+@part
+def dnsid_part():
+    """C32: see translate_dnsid.py (a failure only withholds the c32_* definitions, so only the
+    C32 development stops compiling)."""
+    import translate_dnsid as TD
+    try:
+        return TD.extract(src)
+    except (TD.Err, TranslateError, SyntaxError) as e:
+        return "Definition c32_TRANSLATE_ERROR : string := %s." % coq_string(
+            re.sub(r"[^ -~]", "?", str(e))[:300])
+
+
+@part
+def statestore_part():
+    """C19/C20/C21: see translate_statestore.py (own module; a failure only withholds the
+    statestore_* definitions, so only those developments stop compiling)."""
+    import translate_statestore as TS
+    try:
+        return TS.extract(src)
+    except (TS.Err, TranslateError, SyntaxError) as e:
+        return "Definition statestore_TRANSLATE_ERROR : string := %s." % coq_string(
+            re.sub(r"[^ -~]", "?", str(e))[:300])
+
+
 def generate():
     body = ["(* GENERATED by harness/translate.py from /repo — do not edit. *)",
             "From Coq Require Import List ZArith String.", "Import ListNotations.",
